@@ -1,4 +1,5 @@
 import Glom.Spec.C20
+import Glom.Spec.C20Err
 import Glom.Generated.C20Facts
 /- The facts of C20 regenerated from /repo's current source (extract/facts/c20.py). -/
 namespace Glom.C20
@@ -23,5 +24,17 @@ def genFacts : Facts :=
     parentLinkKeys := Generated.c20ParentLinkKeys
     specGlomResets := Generated.c20SpecGlomResets
     glomResets := Generated.c20GlomResets }
+
+/-- the error object: what `__str__` depends on, what `_finalize` sets, how errors are copied -/
+def genErrFacts : ErrM.ErrFacts :=
+  { mutableAttrs := Generated.c20ErrMutableAttrs
+    finalizeSets := Generated.c20ErrFinalizeSets
+    strInputs := Generated.c20ErrStrInputs
+    strWrites := Generated.c20ErrStrWrites
+    strOverrides := Generated.c20ErrStrOverrides
+    copyOverrides := Generated.c20ErrCopyOverrides
+    exitShape := Generated.c20ErrExitShape
+    wrapShape := Generated.c20ErrWrapShape
+    setWrapped := Generated.c20ErrSetWrapped }
 
 end Glom.C20
